@@ -207,7 +207,12 @@ func c29CheckGrid(c *kit.Case, g *GridMapper, v, i int) {
 		}
 		wantV[g.Previous[i]]++
 		wantV[g.Next[i]]++
-		c29CompareValidators(c, fmt.Sprintf("V=%d AllNeighborValidators(%d)", v, i), g.AllNeighborValidators(i), wantV)
+		first := g.AllNeighborValidators(i)
+		c29CompareValidators(c, fmt.Sprintf("V=%d AllNeighborValidators(%d)", v, i), first, wantV)
+		// an answer handed out stays the caller's: later questions to the same mapper must not change it
+		g.AllNeighborValidators((i + 1) % v)
+		g.AllNeighborValidators((i + v - 1) % v)
+		c29CompareValidators(c, fmt.Sprintf("V=%d AllNeighborValidators(%d), looked at again after two later calls on the same mapper,", v, i), first, wantV)
 	} else if i < 0 {
 		if r := g.AllNeighborValidators(i); len(r) != 0 {
 			c.Failf("V=%d: AllNeighborValidators(%d) returned %d validators for a negative index", v, i, len(r))
